@@ -8,6 +8,17 @@ let get_op = function
   | L [A "R"; k] -> ReadV (get_str k)
   | L [A "O"] -> Reopen
   | _ -> bad "op"
+(* a Python key: (s 'c.c.c) a str by its code points, H a hashable non-str, U an unhashable object *)
+let get_pykey = function
+  | L [A "s"; k] -> KStr (get_str k)
+  | A "H" -> KNoEncode
+  | A "U" -> KUnhashable
+  | _ -> bad "pykey"
+let get_pop = function
+  | L [A "W"; k; v; t] -> PWrite (get_pykey k, get_str v, get_str t)
+  | L [A "R"; k] -> PReadV (get_pykey k)
+  | L [A "O"] -> PReopen
+  | _ -> bad "pop"
 let put_value (v, t) = L [put_str v; put_str t]
 let bytes_to_string (l : n list) =
   let b = Buffer.create 1024 in
@@ -54,6 +65,41 @@ let register (reg : string -> (Sx.t list -> Sx.t) -> unit) =
                         go f' h' r (put_world pg limit f' h' pk es :: acc)) in
              L (go f0 h0 ops [first]))
     | _ -> bad "c10_run");
+  (* (c10_prun isz pg limit pops) -> as c10_run for calls with Python keys: a refused call is reported (world as it is
+     after the call, `raised` exception, whether the call had no file effect and left the handle as it was, and
+     read_value of every key stored so far through the handle) and the history goes on *)
+  reg "c10_prun" (fun a -> match a with
+    | [isz; pg; limit; ops] ->
+        let isz = get_n isz and pg = get_n pg and limit = BZ.to_int (get_int limit) in
+        let ops = get_list get_pop ops in
+        (match start isz with
+         | Err e -> L [L [A "err"; put_exn e]]
+         | Ok ((f0, h0), e0) ->
+             let first = put_world pg limit f0 h0 (A "N") e0 in
+             let probe f h acc_ops =
+               match f with
+               | None -> L []
+               | Some b -> put_list (fun (k, _) -> L [put_blob 64 k; put_res put_value (peek b h k)])
+                             (spec (List.rev acc_ops)) in
+             let rec go f h ops done_ acc =
+               match ops with
+               | [] -> List.rev acc
+               | o :: r ->
+                   (match pstep isz (f, h) o with
+                    | Err e -> List.rev (L [A "err"; put_exn e] :: acc)
+                    | Ok (((f', h'), es), None) ->
+                        let lo = (match lower o with Ok x -> x | Err _ -> bad "lower") in
+                        let pk = match lo, f' with
+                          | ReadV k, Some b -> put_res put_value (peek b h' k)
+                          | _ -> A "N" in
+                        go f' h' r (lo :: done_) (put_world pg limit f' h' pk es :: acc)
+                    | Ok (((f', h'), es), Some e) ->
+                        let w = (match put_world pg limit f' h' (L [A "raised"; put_exn e]) es with
+                                 | L l -> L (l @ [put_bool (es = [] && h' = h && f' = f); probe f' h' done_])
+                                 | x -> x) in
+                        go f' h' r done_ (w :: acc)) in
+             L (go f0 h0 ops [] [first]))
+    | _ -> bad "c10_prun");
   reg "c10_spec" (fun a -> match a with
     | [ops] -> put_list put_entry (spec (get_list get_op ops))
     | _ -> bad "c10_spec")
